@@ -107,6 +107,28 @@ def run_unit(unit, rng, ctx):
     ctx.check(set(G2.nodes) == want_nodes, f'{what}: graph with threshold {thr!r} has nodes {len(G2.nodes)}, expected the {len(want_nodes)} visited voxels below it', wit)
     for node in list(G.nodes)[:5]:
         ctx.check(G.nodes[node].get('energy') == Fd[node], f'{what}: node {node} carries energy {G.nodes[node].get("energy")!r}, grid says {Fd[node]!r}', wit)
+    # history: the same Volume object after its density was edited (in place or reassigned), and asked again
+    if unit['i'] % 2 == 0 and int(visited.sum()) >= 3:
+        d2 = np.array(vol.data, dtype=float)
+        kill = np.argwhere(visited)[:: 2][: max(1, int(visited.sum()) // 3)]
+        if unit['i'] % 4 == 0:
+            vol.data = d2.copy()
+            for ix in kill:
+                vol.data[tuple(ix)] = 0
+        else:
+            for ix in kill:
+                d2[tuple(ix)] = 0
+            vol.data = d2
+        dd = np.asarray(vol.data, dtype=float)
+        if dd.sum() > 0:
+            F2 = np.asarray(vol.get_free_energy(temperature=temp).data)
+            v2 = dd > 0
+            w2 = -kT * np.log(dd[v2] / dd.sum())
+            ctx.check(bool(np.all(np.isfinite(F2))) and np.allclose(F2[v2], w2, rtol=1e-9, atol=1e-12 * kT) and abs(np.exp(-F2[v2] / kT).sum() - 1) <= 1e-7, f'{what}: after the density of the same Volume object was edited, get_free_energy no longer equals -kT ln(p) of the current density (sum exp(-F/kT) = {np.exp(-F2[v2] / kT).sum()!r})', {'data': dd, 'temperature': temp})
+            ctx.count('requery_after_density_edit')
+    else:
+        F3 = np.asarray(vol.get_free_energy(temperature=temp).data)
+        ctx.check(np.array_equal(F3, Fd), f'{what}: asking get_free_energy twice gives different grids', wit)
     nv = int(visited.sum())
     ctx.count(f'mode:{mode}')
     ctx.count('voxels_checked', data.size)
